@@ -27,7 +27,7 @@ import warnings
 from pathlib import Path
 
 from . import gen, seams
-from .kernel import EventLog, Violation, derive_rng, digest, vclasses
+from .kernel import EventLog, Violation, close, derive_rng, digest, plain, vclasses
 
 TOL = 1.0e-3  # the sizing tolerance the properties quote
 
@@ -36,12 +36,12 @@ TOL = 1.0e-3  # the sizing tolerance the properties quote
 WEIGHTS = {
     # op kind -> weight per property family
     "C13": {"find": 3, "redesign": 3, "abort_find": 3, "other": 2, "nominal": 2, "sim": 5, "sim_hourly": 2, "sim_out": 2,
-            "size": 2, "regen": 1, "report": 1, "tick": 1, "rebuild": 2},
-    "C12": {"find": 1, "redesign": 1, "abort_find": 1, "other": 0, "nominal": 1, "sim": 3, "size": 2, "regen": 1, "report": 4,
-            "tick": 1, "rebuild": 0},
-    "C19": {"find": 1, "redesign": 1, "sim": 2, "size": 1, "regen": 1, "report": 5, "tick": 2, "rebuild": 0},
-    "C01": {"find": 2, "redesign": 2, "abort_find": 2, "other": 1, "nominal": 2, "rebuild": 2, "tick": 0},
-    "C02": {"find": 2, "redesign": 1, "abort_find": 1, "nominal": 1, "rebuild": 1},
+            "size": 2, "abort_size": 2, "regen": 1, "report": 1, "tick": 1, "rebuild": 2, "pristine": 0.6, "reconf": 3, "ghe_new": 1.5},
+    "C12": {"find": 1, "redesign": 1, "abort_find": 1, "other": 1.5, "nominal": 1, "sim": 3, "size": 2, "abort_size": 1, "regen": 1,
+            "report": 4, "tick": 1, "rebuild": 0},
+    "C19": {"find": 1, "redesign": 1, "sim": 2, "size": 1, "regen": 1, "report": 5, "tick": 2, "rebuild": 0, "other": 1.5},
+    "C01": {"find": 2, "redesign": 2, "abort_find": 2, "other": 1, "nominal": 2, "rebuild": 2, "tick": 0, "reconf": 2},
+    "C02": {"find": 2, "redesign": 1, "abort_find": 1, "nominal": 1, "rebuild": 1, "reconf": 1},
     "C05": {"find": 2, "redesign": 1, "abort_find": 1, "nominal": 1, "rebuild": 1},
     "C20": {"find": 1, "twin": 4, "redesign": 1},
     "C17": {"find": 1},
@@ -59,6 +59,7 @@ def draw_plan(rng: random.Random, prop: str, tier: str = "quick", methods=None, 
     if prop in ("C12", "C02", "C05") and cfg["target"] in ("tiny", "huge"):
         cfg["simulation"]["continue_if_design_unmet"] = rng.random() < 0.75
     cfg2 = gen.draw_cfg(rng, methods=CHEAP_METHODS, months=12)
+    variant = make_variant(rng, cfg)
     w = WEIGHTS[prop]
     n_ops = rng.randint(2, max_ops or (9 if prop == "C13" else 5))
     order = list(gen.SETTERS)
@@ -68,7 +69,11 @@ def draw_plan(rng: random.Random, prop: str, tier: str = "quick", methods=None, 
         if rng.random() < 0.25:
             decoys.append(name)
     rng.shuffle(decoys)
-    ops = [{"op": "build", "mgr": "A", "order": order, "decoys": decoys}, {"op": "find", "mgr": "A"}]
+    start_at_variant = "reconf" in w and rng.random() < 0.3
+    ops = [{"op": "build", "mgr": "A", "order": order, "decoys": decoys, "cfg_key": "variant" if start_at_variant else "base"},
+           {"op": "find", "mgr": "A"}]
+    if start_at_variant:
+        ops.append({"op": "reconf", "mgr": "A", "to": "base"})
     kinds = [k for k, v in w.items() if v > 0]
     weights = [w[k] for k in kinds]
     hourly_ok = cfg["simulation"]["num_months"] == 12
@@ -88,12 +93,16 @@ def draw_plan(rng: random.Random, prop: str, tier: str = "quick", methods=None, 
             ops.append({"op": "abort_find", "mgr": "A", "site": rng.choice(["gfunc", "simulate"]), "k": rng.randint(1, 14),
                         "redesign": rng.random() < 0.5})
             ops.append({"op": "find", "mgr": "A"})
+        elif k == "abort_size":
+            ops.append({"op": "abort_size", "mgr": "A", "k": rng.randint(1, 8)})
+            ops.append({"op": "size", "mgr": "A"})
         elif k == "nominal":
             ops.append({"op": "nominal", "mgr": "A", "height": gen.r3(rng.uniform(20.0, 400.0))})
         elif k == "tick":
             ops.append({"op": "tick", "dt": rng.choice([1.0, 3600.0, 86400.0 * 40, -5.0, -86400.0, 1e9])})
         elif k == "report":
-            ops.append({"op": "report", "mgr": "A", "dir": f"r{len(ops)}", "suffix": rng.choice(["", "", "_x"])})
+            ops.append({"op": "report", "mgr": "A", "dir": f"r{len(ops)}", "suffix": rng.choice(["", "", "_x"]),
+                        "other_prepares_in_between": rng.random() < 0.6})
         elif k == "rebuild":
             o2 = list(gen.SETTERS)
             rng.shuffle(o2)
@@ -101,28 +110,101 @@ def draw_plan(rng: random.Random, prop: str, tier: str = "quick", methods=None, 
             ops.append({"op": "find", "mgr": "A"})
         elif k == "twin":
             ops.append({"op": "twin", "mgr": "A"})
+        elif k == "pristine":
+            ops.append({"op": "find", "mgr": "A"})
+            ops.append({"op": "pristine", "mgr": "A"})
+        elif k == "ghe_new":
+            # a stand-alone field object (live single-height g-function until `regen`), then a burst of calls on it
+            ops.append({"op": "ghe_new", "mgr": "G", "construct_at": rng.choice(["max", "max", "min", "mid"])})
+            for _ in range(rng.randint(2, 5)):
+                kk = rng.choice(["sim", "sim", "size", "regen", "sim_hourly" if hourly_ok else "sim", "abort_size"])
+                if kk == "sim":
+                    ops.append({"op": "sim", "mgr": "G", "method": "HYBRID", "H": gen.r3(rng.uniform(lo, hi))})
+                elif kk == "sim_hourly":
+                    ops.append({"op": "sim", "mgr": "G", "method": "HOURLY", "H": gen.r3(rng.uniform(lo, hi))})
+                elif kk == "abort_size":
+                    ops.append({"op": "abort_size", "mgr": "G", "k": rng.randint(1, 8)})
+                    ops.append({"op": "size", "mgr": "G"})
+                else:
+                    ops.append({"op": kk, "mgr": "G"})
+        elif k == "reconf":
+            # leave to the variant and come back: the history ends in the base configuration again
+            ops.append({"op": "reconf", "mgr": "A", "to": "variant"})
+            if rng.random() < 0.8:
+                ops.append({"op": "reconf", "mgr": "A", "to": "base"})
+        elif k == "other":
+            ops.append({"op": "other", "cfg_key": rng.choice(["cfg2", "variant", "variant"])})
         else:
             ops.append({"op": k, "mgr": "A"})
+    if prop == "C13" and any(o["op"] in ("other", "reconf") for o in ops) and rng.random() < 0.5:
+        # histories in which a process-global leak is plausible end with a comparison against a pristine interpreter
+        ops.append({"op": "find", "mgr": "A"})
+        ops.append({"op": "pristine", "mgr": "A"})
     if prop in ("C12", "C19") and not any(o["op"] == "report" for o in ops):
-        ops.append({"op": "report", "mgr": "A", "dir": "rend", "suffix": ""})
+        ops.append({"op": "report", "mgr": "A", "dir": "rend", "suffix": "", "other_prepares_in_between": rng.random() < 0.6})
     if prop == "C20" and not any(o["op"] == "twin" for o in ops):
         ops.append({"op": "twin", "mgr": "A"})
-    return {"engine": "E1", "property": prop, "cfg": cfg, "cfg2": cfg2, "ops": ops,
+    return {"engine": "E1", "property": prop, "cfg": cfg, "cfg2": cfg2, "variant": variant, "ops": ops,
             "clock": {"start": float(rng.randrange(0, 10 ** 8)), "step": rng.choice([0.25, 1.0, 1800.0])}}
+
+
+GROUPS = {"soil": ["soil"], "grout": ["grout"], "fluid": ["fluid"], "pipe_borehole": ["pipe", "borehole"],
+          "simulation": ["simulation"], "geometry": ["geometry"], "loads": ["loads"], "design": ["design"]}
+
+
+def make_variant(rng: random.Random, cfg: dict) -> dict:
+    """cfg with 1-3 section groups replaced by those of another draw for the same design method: the 'almost the same
+    design' that a cache keyed on part of the state, or an object shared between calls, would confuse with cfg."""
+    other = gen.draw_cfg(rng, methods=[cfg["geometry"]["method"]], pipes=[cfg["pipe"]["arrangement"]],
+                         months=cfg["simulation"]["num_months"])
+    names = list(GROUPS)
+    k = rng.choice([1, 1, 1, 1, 2, 3])
+    chosen = rng.sample(names, k)
+    v = copy.deepcopy(cfg)
+    for g in chosen:
+        for sec in GROUPS[g]:
+            v[sec] = copy.deepcopy(other[sec])
+    if "geometry" in chosen and rng.random() < 0.5 and "length" in cfg["geometry"]:
+        # same lot, only larger / smaller
+        v["geometry"] = copy.deepcopy(cfg["geometry"])
+        f = rng.choice([0.5, 0.7, 1.6, 2.2])
+        v["geometry"]["length"] = gen.r3(cfg["geometry"]["length"] * f)
+        if "width" in v["geometry"]:
+            v["geometry"]["width"] = gen.r3(cfg["geometry"]["width"] * f)
+        gg = v["geometry"]
+        if "b_min" in gg:
+            sides = [gg["length"], gg.get("width", gg["length"])]
+            bms = [gg[x] for x in ("b_max", "b_max_x", "b_max_y") if x in gg]
+            if not all(gen.rows_ok(sd, gg["b_min"], bm) for sd in sides for bm in bms):
+                v["geometry"] = copy.deepcopy(other["geometry"])
+    if "simulation" in chosen and rng.random() < 0.5:
+        # only the optional members differ
+        v["simulation"] = copy.deepcopy(cfg["simulation"])
+        v["simulation"]["max_boreholes"] = None if cfg["simulation"]["max_boreholes"] else rng.randint(3, 30)
+        v["simulation"]["continue_if_design_unmet"] = not cfg["simulation"]["continue_if_design_unmet"]
+    v["variant_of"] = sorted(chosen)
+    v.pop("target", None)
+    return v
+
+
+def plan_cfg(plan: dict, key: str) -> dict:
+    c = plan["cfg"] if key in (None, "base") else plan[key if key != "variant" else "variant"]
+    c = {k: v for k, v in c.items() if k not in ("variant_of", "target")}
+    return c
 
 
 # ------------------------------------------------------------------------------------------ observation helpers
 def _hex(x):
-    return float(x).hex()
+    return float(x)
 
 
 def fp_find(mgr) -> dict:
     s = mgr._search
     g = s.ghe
     coords = [[float(c[0]), float(c[1])] for c in g.gFunction.bore_locations]
-    return {"nbh": len(coords), "coords": digest(coords), "H": _hex(g.bhe.b.H), "max": _hex(max(g.hp_eft)),
-            "min": _hex(min(g.hp_eft)), "hp": digest([float(x) for x in g.hp_eft]), "dTb": digest([float(x) for x in g.dTb]),
-            "tracker": digest(s.searchTracker), "times": digest([float(x) for x in g.times]),
+    return {"nbh": len(coords), "coords": coords, "H": float(g.bhe.b.H), "max": float(max(g.hp_eft)),
+            "min": float(min(g.hp_eft)), "hp": [float(x) for x in g.hp_eft], "dTb": [float(x) for x in g.dTb],
+            "tracker": plain(s.searchTracker), "times": [float(x) for x in g.times],
             "spec": str(g.fieldSpecifier)}
 
 
@@ -183,7 +265,7 @@ class Reference:
         return self.fp[digest(cfg)][1]
 
     @staticmethod
-    def fresh_ghe(cfg, coords, spec, flow_override=None, h0=None):
+    def fresh_ghe(cfg, coords, spec, flow_override=None, h0=None, regen=True):
         """A GHE for `coords` built the way the search classes build the returned one (constructed at height h0 — the
         height the object under test was constructed at, max_height by default — then g-functions for min/avg/max
         height) on brand-new component objects.  No simulate() has ever been called on it."""
@@ -201,7 +283,8 @@ class Reference:
                             d.hourly_extraction_ground_loads, method=TimestepType.HYBRID, flow_type=flow_type, search=False,
                             field_type="reference")
             s.initialize_ghe(coords, d.sim_params.max_height if h0 is None else h0, spec)
-            s.ghe.compute_g_functions()
+            if regen:
+                s.ghe.compute_g_functions()
         return s.ghe
 
 
@@ -297,9 +380,9 @@ def outcome_class(cfg, out) -> str:
     if "exc" in out:
         return f"raised:{out['exc']}"
     sim = cfg["simulation"]
-    h = float.fromhex(out["ok"]["H"])
+    h = out["ok"]["H"]
     if out.get("escape"):
-        return "unmet_continued"
+        return "unmet_continued_max" if h == sim["max_height"] else "unmet_continued_min"
     if h == sim["min_height"]:
         return "clamped_min"
     if h == sim["max_height"]:
@@ -333,7 +416,7 @@ def execute(plan: dict) -> Ctx:
 
 # ---- operations
 def op_build(ctx: Ctx, i, op):
-    cfg = ctx.plan["cfg"]
+    cfg = plan_cfg(ctx.plan, op.get("cfg_key"))
     cfg2 = ctx.plan["cfg2"]
     decoys = []
     for n in op.get("decoys", []):
@@ -344,7 +427,7 @@ def op_build(ctx: Ctx, i, op):
         mgr = gen.build_manager(cfg, order=op.get("order"), decoys=decoys)
     ctx.mgrs[op["mgr"]] = mgr
     ctx.state[op["mgr"]] = {"cfg": cfg, "last": None, "aborted": False}
-    ctx.log.add("build", [op.get("order"), op.get("decoys")], None)
+    ctx.log.add("build", [op.get("order"), op.get("decoys"), op.get("cfg_key")], None)
     if decoys:
         ctx.bump("probe:setter_called_with_decoy_then_real_value")
 
@@ -365,11 +448,14 @@ def _check_find(ctx: Ctx, i, op, out, cfg):
         ref = ctx.ref.fresh(cfg)
         a = out.get("ok") or {"exc": out["exc"], "msg": out["msg"]}
         b = ref.get("ok") or {"exc": ref["exc"], "msg": ref["msg"]}
-        if a != b:
-            diff = [k for k in set(a) | set(b) if a.get(k) != b.get(k)]
-            detail = f"after {ctx.shape} the result differs from a fresh manager in {sorted(diff)}"
+        same, where = close(a, b)
+        if not same:
+            diff = [k for k in set(a) | set(b) if not close(a.get(k), b.get(k))[0]]
+            detail = f"after {ctx.shape} the result differs from a fresh manager in {sorted(diff)} (first at {where})"
             if "H" in diff:
-                detail += f" (H {float.fromhex(a['H'])!r} vs {float.fromhex(b['H'])!r})"
+                detail += f" (H {a['H']!r} vs {b['H']!r})"
+            if "nbh" in diff:
+                detail += f" ({a['nbh']} vs {b['nbh']} boreholes)"
             if "exc" in diff:
                 detail += f" ({a.get('exc')}:{a.get('msg')} vs {b.get('exc')}:{b.get('msg')})"
             ctx.violation(Violation("C13", "find_differs_from_fresh", detail, site=f"find_after:{op['op']}"), i,
@@ -386,6 +472,28 @@ def _check_find(ctx: Ctx, i, op, out, cfg):
     h = g.bhe.b.H
     nbh = len(g.gFunction.bore_locations)
     if prop == "C02":
+        so = out.get("stdout", "")
+        if "Smallest available configuration selected." in so and method in ("NEARSQUARE", "RECTANGLE"):
+            ctx.bump("probe:unmet_too_small_continued_real_physics")
+            dom = mgr._design.coordinates_domain
+            if h != sim["min_height"] or nbh != len(dom[0]):
+                ctx.violation(Violation("C02", "unmet_continue_wrong_pick", f"too_small (real physics): returned {nbh}@{h!r}, want "
+                                                                          f"{len(dom[0])}@{sim['min_height']}", site=f"{method}:too_small"),
+                              i, {"mode": "real"})
+        if "Largest available configuration selected." in so and method in ("NEARSQUARE", "RECTANGLE", "ROWWISE"):
+            ctx.bump("probe:unmet_too_large_continued_real_physics")
+            if h != sim["max_height"]:
+                ctx.violation(Violation("C02", "unmet_continue_wrong_pick", f"too_large (real physics): returned {nbh}@{h!r}, want "
+                                                                          f"height {sim['max_height']}", site=f"{method}:too_large"),
+                              i, {"mode": "real"})
+            if method != "ROWWISE":
+                dom = mgr._design.coordinates_domain
+                cap = sim["max_boreholes"]
+                want_n = max(len(c) for c in dom if cap is None or len(c) < cap)
+                if nbh != want_n:
+                    ctx.violation(Violation("C02", "unmet_continue_wrong_pick", f"too_large (real physics): returned {nbh} boreholes, "
+                                                                              f"largest allowed is {want_n}", site=f"{method}:too_large"),
+                                  i, {"mode": "real"})
         if not (sim["min_height"] <= h <= sim["max_height"]):
             ctx.violation(Violation("C02", "height_out_of_bounds", f"H={h!r} outside [{sim['min_height']},{sim['max_height']}]",
                                     site=method), i, {"mode": "real"})
@@ -426,7 +534,7 @@ def _check_find(ctx: Ctx, i, op, out, cfg):
 
 def _history_kind(ctx: Ctx) -> str:
     s = ctx.shape[:-1]
-    for k in ("abort_find", "nominal", "other", "sim", "size", "regen", "report", "redesign"):
+    for k in ("reconf", "abort_find", "nominal", "other", "sim", "size", "regen", "report", "redesign"):
         if k in s:
             return k
     return "plain" if s.count("build") <= 1 else "rebuild"
@@ -446,6 +554,7 @@ def op_find(ctx: Ctx, i, op):
     ctx.flow_rec = rec
     ctx.state[name]["last"] = out
     ctx.state[name]["aborted"] = False
+    ctx.state[name]["touched"] = False
     ctx.log.add("find", op["op"], out.get("ok") or [out.get("exc"), out.get("msg")])
     _check_find(ctx, i, op, out, cfg)
 
@@ -475,6 +584,35 @@ def op_nominal(ctx: Ctx, i, op):
     st["nominal_override"] = mgr_cfg_nominal
     ctx.log.add("nominal", op["height"], out.get("ok") or [out.get("exc"), out.get("msg")])
     _check_find(ctx, i, op, out, cfg)
+
+
+def op_reconf(ctx: Ctx, i, op):
+    """Change the configuration of a live manager by calling only the setters whose section differs, then
+    set_design + find_design; the reference is a fresh manager built for the target configuration."""
+    name = op["mgr"]
+    mgr = ctx.mgrs[name]
+    st = ctx.state[name]
+    cur = st["cfg"]
+    target = plan_cfg(ctx.plan, op["to"])
+    changed = []
+    with Quiet():
+        for gname, secs in GROUPS.items():
+            if any(cur[sec] != target[sec] for sec in secs) or (gname == "pipe_borehole" and st.get("nominal_override")):
+                for sec in secs:
+                    gen._call_setter(mgr, sec, target, gen._LOADS_CACHE)
+                changed.append(gname)
+        mgr.set_design(flow_rate=target["design"]["flow_rate"], flow_type_str=target["design"]["flow_type"])
+    st["cfg"] = target
+    st.pop("nominal_override", None)
+    ctx.bump("probe:manager_reconfigured_between_finds")
+    for c in changed:
+        ctx.bump(f"reconf_section:{c}")
+    out = do_find(mgr)
+    st["last"] = out
+    st["aborted"] = False
+    st["touched"] = False
+    ctx.log.add("reconf", [op["to"], changed], out.get("ok") or [out.get("exc"), out.get("msg")])
+    _check_find(ctx, i, op, out, target)
 
 
 def op_abort_find(ctx: Ctx, i, op):
@@ -509,7 +647,9 @@ def op_abort_find(ctx: Ctx, i, op):
 
 
 def op_other(ctx: Ctx, i, op):
-    cfg2 = ctx.plan["cfg2"]
+    cfg2 = plan_cfg(ctx.plan, op.get("cfg_key") or "cfg2")
+    if op.get("cfg_key") == "variant":
+        ctx.bump("probe:near_identical_design_ran_in_between")
     with Quiet():
         m2 = gen.build_manager(cfg2)
     out = do_find(m2)
@@ -519,11 +659,53 @@ def op_other(ctx: Ctx, i, op):
     ctx.bump("probe:unrelated_design_ran_in_between")
 
 
+def op_ghe_new(ctx: Ctx, i, op):
+    """A stand-alone GHE for the field A returned (or, without a design, a small grid), built through a search=False
+    search object and *not* yet given its three-height g-functions: the 'live g-function' flow."""
+    base = ctx.state.get("A")
+    cfg = base["cfg"] if base else plan_cfg(ctx.plan, "base")
+    sim = cfg["simulation"]
+    ga = _ghe_of(ctx, "A")
+    if ga is not None:
+        coords = [list(map(float, c)) for c in ga.gFunction.bore_locations]
+    else:
+        coords = [[0.0, 0.0], [0.0, 6.0], [6.0, 0.0], [6.0, 6.0]]
+    h0 = {"max": sim["max_height"], "min": sim["min_height"], "mid": gen.r3((sim["max_height"] + sim["min_height"]) / 2)}[
+        op.get("construct_at", "max")]
+    g = ctx.ref.fresh_ghe(cfg, coords, "standalone", h0=h0, regen=False)
+    ctx.ghe_objs = getattr(ctx, "ghe_objs", {})
+    ctx.ghe_objs["G"] = {"ghe": g, "cfg": cfg, "regen": False, "coords": coords, "h0": h0}
+    ctx.bump("probe:standalone_field_object_created")
+    ctx.log.add("ghe_new", [len(coords), h0], None)
+
+
 def _ghe_of(ctx: Ctx, name):
+    if name == "G":
+        rec = getattr(ctx, "ghe_objs", {}).get("G")
+        return rec["ghe"] if rec else None
     st = ctx.state.get(name)
     if not st or not st["last"] or "ok" not in st["last"] or st.get("aborted"):
         return None
     return ctx.mgrs[name]._search.ghe
+
+
+def _obj_cfg(ctx: Ctx, name):
+    if name == "G":
+        return ctx.ghe_objs["G"]["cfg"]
+    return ctx.state[name]["cfg"]
+
+
+def _touch(ctx: Ctx, name):
+    if name != "G":
+        ctx.state[name]["touched"] = True
+
+
+def _fresh_like(ctx: Ctx, name, g):
+    """A brand-new object equivalent to `g` before any simulate/size was called on it."""
+    if name == "G":
+        rec = ctx.ghe_objs["G"]
+        return ctx.ref.fresh_ghe(rec["cfg"], rec["coords"], "standalone", h0=rec["h0"], regen=rec["regen"])
+    return ctx.ref.fresh_ghe(ctx.state[name]["cfg"], g.gFunction.bore_locations, g.fieldSpecifier, h0=g._verif_h0)
 
 
 def _sim_result(g, method_name, h):
@@ -533,7 +715,7 @@ def _sim_result(g, method_name, h):
     with Quiet():
         try:
             mx, mn = g.simulate(method=TimestepType[method_name])
-            return {"max": _hex(mx), "min": _hex(mn), "hp": digest([float(x) for x in g.hp_eft]), "n": len(g.hp_eft)}
+            return {"max": float(mx), "min": float(mn), "hp": [float(x) for x in g.hp_eft], "n": len(g.hp_eft)}
         except seams.InjectedAbort:
             raise
         except Exception as e:  # noqa: BLE001
@@ -547,7 +729,7 @@ def op_sim(ctx: Ctx, i, op):
         ctx.bump("op_skipped_no_design")
         ctx.log.add("sim", op, "skipped")
         return
-    cfg = ctx.state[name]["cfg"]
+    cfg = _obj_cfg(ctx, name)
     n_before = len(g.times)
     kind_before = "empty" if n_before == 0 else ("hourly" if n_before >= 8760 else "hybrid")
     table_built = len(g.gFunction.interpolation_table) > 0
@@ -560,20 +742,19 @@ def op_sim(ctx: Ctx, i, op):
     got = _sim_result(g, op["method"], op["H"])
     ctx.sim_months += cfg["simulation"]["num_months"]
     ctx.log.add("sim", [op["method"], op["H"]], got)
-    ctx.state[name]["touched"] = True
+    _touch(ctx, name)
     if ctx.prop == "C13":
-        coords = g.gFunction.bore_locations
-        rg = ctx.ref.fresh_ghe(cfg, coords, g.fieldSpecifier, h0=g._verif_h0)
+        rg = _fresh_like(ctx, name, g)
         want = _sim_result(rg, op["method"], op["H"])
         ctx.sim_months += cfg["simulation"]["num_months"]
-        if got != want:
+        if not close(got, want)[0]:
             if "exc" in got or "exc" in want:
                 detail = (f"simulate({op['method']}, H={op['H']}) after {ctx.shape[:-1]}: {got.get('exc', 'returns')} "
                           f"{got.get('msg', '')} on the used object, {want.get('exc', 'returns')} {want.get('msg', '')} on a fresh one")
                 vclass = "sim_raises_differently"
             else:
-                detail = (f"simulate({op['method']}, H={op['H']}) after {ctx.shape[:-1]}: max {float.fromhex(got['max'])!r} vs "
-                          f"fresh {float.fromhex(want['max'])!r}")
+                detail = (f"simulate({op['method']}, H={op['H']}) after {ctx.shape[:-1]}: max {got['max']!r} vs "
+                          f"fresh {want['max']!r} (first difference at {close(got, want)[1]})")
                 vclass = "sim_differs_from_fresh"
             ctx.violation(Violation("C13", vclass, detail, site=f"{op['method']}:{'out' if op.get('out_of_window') else 'in'}"), i,
                           {"times_before": kind_before, "out_of_window": bool(op.get("out_of_window")),
@@ -589,13 +770,12 @@ def op_size(ctx: Ctx, i, op):
         ctx.bump("op_skipped_no_design")
         ctx.log.add("size", None, "skipped")
         return
-    cfg = ctx.state[name]["cfg"]
 
     def run(obj):
         with Quiet():
             try:
                 obj.size(method=TimestepType.HYBRID)
-                return {"H": _hex(obj.bhe.b.H), "hp": digest([float(x) for x in obj.hp_eft])}
+                return {"H": float(obj.bhe.b.H), "hp": [float(x) for x in obj.hp_eft]}
             except seams.InjectedAbort:
                 raise
             except Exception as e:  # noqa: BLE001
@@ -604,14 +784,40 @@ def op_size(ctx: Ctx, i, op):
     kind_before = "hourly" if len(g.times) >= 8760 else "hybrid"
     got = run(g)
     ctx.log.add("size", None, got)
-    ctx.state[name]["touched"] = True
+    _touch(ctx, name)
     if ctx.prop == "C13":
-        rg = ctx.ref.fresh_ghe(cfg, g.gFunction.bore_locations, g.fieldSpecifier, h0=g._verif_h0)
+        rg = _fresh_like(ctx, name, g)
         want = run(rg)
-        if got != want:
+        if not close(got, want)[0]:
             ctx.violation(Violation("C13", "size_differs_from_fresh",
-                                    f"size() after {ctx.shape[:-1]}: {got} vs fresh {want}", site="size"), i,
+                                    f"size() after {ctx.shape[:-1]}: H {got.get('H', got)} vs fresh {want.get('H', want)}", site="size"), i,
                           {"times_before": kind_before, "exc": got.get("exc") or want.get("exc")})
+
+
+def op_abort_size(ctx: Ctx, i, op):
+    """size() interrupted at its k-th simulate(); the generator always places a size (the retry) right after."""
+    from ghedesigner.enums import TimestepType
+
+    name = op["mgr"]
+    g = _ghe_of(ctx, name)
+    if g is None:
+        ctx.bump("op_skipped_no_design")
+        ctx.log.add("abort_size", None, "skipped")
+        return
+    ABORTS.arm("simulate", op["k"])
+    fired = False
+    try:
+        with Quiet():
+            g.size(method=TimestepType.HYBRID)
+    except seams.InjectedAbort:
+        fired = True
+    except Exception:  # noqa: BLE001
+        pass
+    finally:
+        ABORTS.disarm()
+    _touch(ctx, name)
+    ctx.bump("fault:abort_inside_size" if fired else "abort_not_reached")
+    ctx.log.add("abort_size", op["k"], "aborted" if fired else "completed")
 
 
 def op_regen(ctx: Ctx, i, op):
@@ -623,7 +829,57 @@ def op_regen(ctx: Ctx, i, op):
         return
     with Quiet():
         g.compute_g_functions()
-    ctx.log.add("regen", None, digest({str(k): v for k, v in g.gFunction.g_lts.items()}))
+    if name == "G":
+        ctx.ghe_objs["G"]["regen"] = True
+    ctx.log.add("regen", None, {str(k): v for k, v in g.gFunction.g_lts.items()})
+
+
+def op_pristine(ctx: Ctx, i, op):
+    """The manager's last result against fresh(cfg) computed in a *pristine interpreter* (new process, other hash seed, no
+    g-function memo): catches process-global leaks that would equally affect an in-process reference."""
+    import os
+    import subprocess
+    import sys
+
+    from .kernel import PINNED_ENV, VERIF_DIR
+
+    name = op["mgr"]
+    st = ctx.state.get(name)
+    if not st or not st["last"] or st.get("aborted"):
+        ctx.log.add("pristine", None, "skipped")
+        return
+    cfg = st["cfg"]
+    f = ctx.root / f"cfg_{i}.json"
+    f.write_text(json.dumps(cfg))
+    env = dict(os.environ)
+    env.update(PINNED_ENV)
+    env.update({"PYTHONHASHSEED": "1", "GHE_VERIF_PINNED": "1", "VERIF_NO_MEMO": "1"})
+    p = subprocess.run([sys.executable, str(VERIF_DIR / "run.py"), "_fresh", str(f)], env=env, capture_output=True, text=True,
+                       timeout=900)
+    line = [ln for ln in p.stdout.splitlines() if ln.startswith("FRESH ")]
+    if p.returncode != 0 or not line:
+        raise RuntimeError(f"pristine reference subprocess failed: {p.stdout[-500:]} {p.stderr[-1500:]}")
+    ref = json.loads(line[-1][6:])
+    ctx.bump("pristine_subprocess_references")
+    out = st["last"]
+    a = out.get("ok") or {"exc": out["exc"], "msg": out["msg"]}
+    b = ref.get("ok") or {"exc": ref["exc"], "msg": ref["msg"]}
+    same = close(a, b)[0]
+    ctx.log.add("pristine", None, same)
+    if not same:
+        diff = sorted(k for k in set(a) | set(b) if not close(a.get(k), b.get(k))[0])
+        ctx.violation(Violation("C13", "find_differs_from_pristine_process",
+                                f"after {ctx.shape[:-1]} (and whatever this worker ran before) the result differs from a fresh "
+                                f"manager in a new process in {diff}", site="pristine"), i, {"after": _history_kind(ctx)})
+
+
+def fresh_main(path: str) -> int:
+    """`run.py _fresh <cfg.json>`: fingerprint of fresh(cfg) in this (new) interpreter."""
+    worker_init()
+    cfg = json.loads(Path(path).read_text())
+    out = REF.fresh(cfg)
+    print("FRESH " + json.dumps(out))
+    return 0
 
 
 def op_tick(ctx: Ctx, i, op):
@@ -636,7 +892,15 @@ def op_tick(ctx: Ctx, i, op):
 CLOCK_TXT = re.compile(r"^(Simulated On:|Calculation Time, s:).*$", re.M)
 
 
+def _num(x: str):
+    try:
+        return float(x)
+    except ValueError:
+        return x
+
+
 def _normalise_outputs(files: dict) -> dict:
+    """Parsed content with the clock-derived fields removed (compared with `close`, i.e. numbers at 1e-9)."""
     out = {}
     for k, v in files.items():
         base = re.sub(r"_x(?=\.)", "", k)
@@ -644,11 +908,11 @@ def _normalise_outputs(files: dict) -> dict:
             d = json.loads(v)
             d.pop("simulation_time_stamp", None)
             d.pop("simulation_runtime", None)
-            out[base] = digest(d)
+            out[base] = d
         elif base == "SimulationSummary.txt":
-            out[base] = digest(CLOCK_TXT.sub("", v))
+            out[base] = CLOCK_TXT.sub("", v)
         else:
-            out[base] = digest(v)
+            out[base] = [[_num(c) for c in row] for row in csv.reader(io.StringIO(v))]
     return out
 
 
@@ -671,6 +935,10 @@ def op_report(ctx: Ctx, i, op):
     try:
         with Quiet():
             mgr.prepare_results("proj", "note", "auth", "iter")
+            if op.get("other_prepares_in_between") and _ghe_of(ctx, "B") is not None:
+                # a batch script that prepares all its cases first and writes the reports afterwards
+                ctx.mgrs["B"].prepare_results("projB", "noteB", "authB", "iterB")
+                ctx.bump("probe:other_manager_prepared_results_between_prepare_and_write")
             mgr.write_output_files(outdir, op.get("suffix", ""))
     except Exception as e:  # noqa: BLE001
         # e.g. a report requested while an out-of-window height is left on the object (C13 histories only)
@@ -702,8 +970,8 @@ def op_report(ctx: Ctx, i, op):
             ctx.ref.files[key] = _normalise_outputs(_read_outputs(rdir))
         got = _normalise_outputs(files)
         want = ctx.ref.files[key]
-        if got != want:
-            diff = sorted(k for k in set(got) | set(want) if got.get(k) != want.get(k))
+        if not close(got, want)[0]:
+            diff = sorted(k for k in set(got) | set(want) if not close(got.get(k), want.get(k))[0])
             ctx.violation(Violation("C13", "output_files_differ_from_fresh", f"after {ctx.shape[:-1]}: {diff} differ",
                                     site="report"), i, {"files": ",".join(diff)})
 
@@ -956,14 +1224,14 @@ def op_twin(ctx: Ctx, i, op):
             ctx.violation(Violation("C20", "twin_raises_differently", f"{ra} vs {rb}", site=site), i, feats)
         return
     for k in ("max", "min"):
-        x, y = float.fromhex(ra[k]), float.fromhex(rb[k])
+        x, y = ra[k], rb[k]
         if abs(x - y) > 1e-9:
             ctx.violation(Violation("C20", "twin_temperatures", f"{k} EFT {x!r} (BOREHOLE v) vs {y!r} (SYSTEM N v), N={n}", site=site),
                           i, feats)
 
 
 OPS = {"build": op_build, "find": op_find, "redesign": op_redesign, "nominal": op_nominal, "abort_find": op_abort_find,
-       "other": op_other, "sim": op_sim, "size": op_size, "regen": op_regen, "tick": op_tick, "report": op_report,
+       "other": op_other, "sim": op_sim, "size": op_size, "abort_size": op_abort_size, "pristine": op_pristine, "reconf": op_reconf, "ghe_new": op_ghe_new, "regen": op_regen, "tick": op_tick, "report": op_report,
        "twin": op_twin}
 
 
